@@ -81,3 +81,13 @@ package utils
 //@   property C20
 //@   modifies nothing
 //@   ensures[drops-last] len(h) >= 1 ==> len(result) == len(h) - 1 && base(result) == base(h)
+
+// ---- C05: percent-decoding of metadata never indexes outside its table -------------
+// the table maps EVERY byte value (0..255) to its hex digit value + 1 (0 = none)
+//@ func init$hex2intTable
+//@   property C05
+//@   ensures[covers-every-byte-value] len(result) == 256
+//@ func hexbyte2int
+//@   property C05
+//@   flags safety
+//@   requires[table-covers-every-byte-value] len(hex2intTable) == 256
